@@ -3,8 +3,10 @@ import KdVerif.Proofs.Trunc
 import KdVerif.Proofs.Cost
 /-
   The expected IR of the reader code (`Spec/PyIRRdExpected`), run by the interpreter of `Model/PyIRRd`, is the
-  hand model of `Model/ContainerV2|V3`: `seekUntil`, `setThreadMap`, `parseV2`, the prefix of `parseV3` up to the
-  end of the chunk loop, and the dispatch of `parse` — for every reader state.  Core Lean only.
+  hand model of `Model/ContainerV2|V3`: `seekUntil`, `setThreadMap`, `parseV2`, the whole of `parseV3` (prefix up to
+  the end of the chunk loop: `chunk_loop`; tail: `tail_exec` = `tailV3`, with `block_body` = `dispatchBlock`,
+  `blocks_loop` = `dispatchBlocks`, `log_loop` = `logLoop`), and the dispatch of `parse` — for every reader state.
+  Core Lean only.
 -/
 namespace KdVerif.PyIRRd
 open Reader Expected
@@ -84,10 +86,10 @@ theorem seek_loop (tag : Bytes) : ∀ (rest : Bytes) (fuel : Nat) (found : Bytes
 theorem runSeek_expected (tag : Bytes) (r : Reader) : runSeek Expected.seekUntil tag r = KdVerif.seekUntil tag r := by
   rw [seekUntil_eq]
   let st1 : St Unit :=
-    ⟨(Env.empty.set 0 (.bytes tag)).set 1 (.bytes (r.read tag.length).1), (r.read tag.length).2, Tables.empty, none, []⟩
+    ⟨(Env.empty.set 0 (.bytes tag)).set 1 (.bytes (r.read tag.length).1), (r.read tag.length).2, Tables.empty, Tables.empty, {}, []⟩
   obtain ⟨st', hl, hrd⟩ := seek_loop tag (r.read tag.length).2.rest (loopFuel st1) (r.read tag.length).1 st1 rfl
     (by simp [loopFuel, st1]) (by simp [st1, Env.set]) (by simp [st1, Env.set])
-  have hexec : exec leafParams Expected.seekUntil.body ⟨Env.empty.set 0 (.bytes tag), r, Tables.empty, none, []⟩ =
+  have hexec : exec leafParams Expected.seekUntil.body ⟨Env.empty.set 0 (.bytes tag), r, Tables.empty, Tables.empty, {}, []⟩ =
       ((if (seekAux tag (r.read tag.length).2.rest (r.read tag.length).1 0).1 then Signal.normal else Signal.err .eof), st') := by
     simp only [Expected.seekUntil, exec, evalI, evalB, Env.set, if_true]
     exact hl
@@ -165,8 +167,8 @@ theorem record_loop {ε : Type} (P : Params ε) : ∀ (g f : Nat) (st : St ε), 
     (recordLoop P.dec g st.rd).2.1 ≠ some .hang →
     ∃ st', whileLoop (fun s => evalC s.env .tt) (fun s => exec P recordBody s) f st =
         (sigOf (recordLoop P.dec g st.rd).2.1, st') ∧
-      st'.rd = (recordLoop P.dec g st.rd).2.2 ∧ st'.outs = st.outs ++ (recordLoop P.dec g st.rd).1 ∧
-      st'.tables = st.tables ∧ st'.hdr = st.hdr
+      st'.rd = (recordLoop P.dec g st.rd).2.2 ∧ st'.outs = st.outs ++ (recordLoop P.dec g st.rd).1.map .ev ∧
+      st'.tables = st.tables ∧ st'.tmTables = st.tmTables ∧ st'.md = st.md
   | 0, f, st, _, h => by simp [recordLoop] at h
   | g + 1, f, st, hgf, h => by
     obtain ⟨f', rfl⟩ : ∃ f', f = f' + 1 := ⟨f - 1, by omega⟩
@@ -174,16 +176,16 @@ theorem record_loop {ε : Type} (P : Params ε) : ∀ (g f : Nat) (st : St ε), 
     by_cases hp : (st.rd.read 64).1 = []
     · refine ⟨{ st with rd := (st.rd.read 64).2, env := st.env.set 1 (.bytes (st.rd.read 64).1) }, ?_, ?_⟩
       · simp only [whileLoop, evalC, recordBody, exec, hk, evalB, Env.set, if_true, hp, decide_true, recordLoop, sigOf]
-      · simp only [recordLoop, hp, if_true, List.append_nil, and_self]
+      · simp only [recordLoop, hp, if_true, List.map_nil, List.append_nil, and_self]
     · cases hd : P.dec (st.rd.read 64).1 with
       | error e =>
         refine ⟨{ st with rd := (st.rd.read 64).2, env := st.env.set 1 (.bytes (st.rd.read 64).1) }, ?_, ?_⟩
         · simp only [whileLoop, evalC, recordBody, exec, hk, evalB, Env.set, if_true, hp, decide_false, recordLoop,
             if_false, hd, sigOf]
-        · simp only [recordLoop, hp, if_false, hd, List.append_nil, and_self]
+        · simp only [recordLoop, hp, if_false, hd, List.map_nil, List.append_nil, and_self]
       | ok ev =>
         let st2 : St ε :=
-          { st with rd := (st.rd.read 64).2, env := st.env.set 1 (.bytes (st.rd.read 64).1), outs := st.outs ++ [ev] }
+          { st with rd := (st.rd.read 64).2, env := st.env.set 1 (.bytes (st.rd.read 64).1), outs := st.outs ++ [.ev ev] }
         have hbody : exec P recordBody st = (.normal, st2) := by
           simp only [recordBody, exec, hk, evalC, evalB, Env.set, if_true, hp, decide_false, hd, st2]
         have hrec : recordLoop P.dec (g + 1) st.rd =
@@ -191,12 +193,20 @@ theorem record_loop {ε : Type} (P : Params ε) : ∀ (g f : Nat) (st : St ε), 
               (recordLoop P.dec g (st.rd.read 64).2).2.2) := by
           simp only [recordLoop, hp, if_false, hd]
         rw [hrec] at h ⊢
-        obtain ⟨st', hl, h1, h2, h3, h4⟩ := record_loop P g f' st2 (by omega) h
-        refine ⟨st', ?_, h1, ?_, h3, h4⟩
+        obtain ⟨st', hl, h1, h2, h3, h4, h5⟩ := record_loop P g f' st2 (by omega) h
+        refine ⟨st', ?_, h1, ?_, h3, h4, h5⟩
         · rw [whileLoop]
           simp only [evalC, hbody]
           exact hl
         · rw [h2]; simp [st2]
+
+theorem filterMap_ev_map {ε : Type} (l : List ε) : (l.map (Out.ev : ε → Out ε)).filterMap Out.ev? = l := by
+  induction l with
+  | nil => rfl
+  | cons a t ih => simp only [List.map_cons, List.filterMap_cons, Out.ev?, ih]
+
+theorem filterMap_ev_comp {ε : Type} (l : List ε) : l.filterMap (Out.ev? ∘ (Out.ev : ε → Out ε)) = l := by
+  rw [← List.filterMap_map]; exact filterMap_ev_map l
 
 /-- `parse_v2`, interpreted, is the model's `parseV2`: same events, same final exception, same tables, same reader
     (position and read counters) — for every reader state and every record decoder that rejects short records. -/
@@ -216,28 +226,29 @@ theorem runGen_parseV2 {ε : Type} (dec : Bytes → Except PyErr ε) (plist : By
   cases res with
   | error e =>
     have : x = ⟨[], some e, prior, hdr, r1⟩ := by
-      rw [hx]; simp [runGen, Expected.parseV2, exec, execPrim, hh]
+      rw [hx]; simp [runGen, runFrom, St.init, Expected.parseV2, exec, execPrim, hh, errOf, Run3.events]
     rw [this, hy]; simp [KdVerif.parseV2, hh]
   | ok h =>
     let st1 : St ε :=
-      ⟨Env.empty.set 0 (.tmap h.threadmap), r1, KdVerif.setThreadMap prior h.threadmap, hdr, []⟩
+      ⟨Env.empty.set 0 (.tmap h.threadmap), r1, KdVerif.setThreadMap prior h.threadmap,
+        KdVerif.setThreadMap prior h.threadmap, { header := hdr }, []⟩
     have hnohang : (recordLoop dec (r1.rest.length / 64 + 2) st1.rd).2.1 ≠ some .hang := by
       apply recordLoop_nohang dec hdec hnh _ _ s1.good
       simp only [st1, Reader.rest, List.length_drop]
       have := s1.good
       omega
-    obtain ⟨st', hl, h1, h2, h3, h4⟩ := record_loop (Expected.prog.params dec plist) (r1.rest.length / 64 + 2)
+    obtain ⟨st', hl, h1, h2, h3, h4, h5⟩ := record_loop (Expected.prog.params dec plist) (r1.rest.length / 64 + 2)
       (loopFuel st1) st1 (by simp only [loopFuel, st1]; omega) hnohang
     simp only [show (Expected.prog.params dec plist).dec = dec from rfl] at hl h1 h2
-    have hexec : exec (Expected.prog.params dec plist) Expected.parseV2 ⟨Env.empty, r, prior, hdr, []⟩ =
+    have hexec : exec (Expected.prog.params dec plist) Expected.parseV2 (St.init ⟨prior, { header := hdr }⟩ r) =
         (sigOf (recordLoop dec (r1.rest.length / 64 + 2) r1).2.1, st') := by
-      simp only [Expected.parseV2, exec, execPrim, hh, Env.set, if_true, params_setTm]
+      simp only [Expected.parseV2, St.init, exec, execPrim, hh, Env.set, if_true, params_setTm]
       exact hl
     rw [hx, hy]
-    simp only [runGen, hexec, KdVerif.parseV2, hh]
+    simp only [runGen, runFrom, hexec, KdVerif.parseV2, hh, Run3.events]
     cases hq : (recordLoop dec (r1.rest.length / 64 + 2) r1).2.1 with
-    | none => simp only [sigOf]; simp [h1, h2, h3, h4, st1, hq]
-    | some e => simp only [sigOf]; simp [h1, h2, h3, h4, st1, hq]
+    | none => simp only [sigOf, errOf]; simp [h1, h2, h3, h5, st1, filterMap_ev_comp]
+    | some e => simp only [sigOf, errOf]; simp [h1, h2, h3, h5, st1, filterMap_ev_comp]
 
 /-! ### parse_v3: the chunk loop -/
 
@@ -254,8 +265,8 @@ def recBody : Stmt := .seq (.read 2 (.const .keventSize)) (.yieldKd (.var 2))
 
 theorem records_n {ε : Type} (P : Params ε) : ∀ (n : Nat) (st : St ε),
     ∃ st', forLoop (fun s => exec P recBody s) n st = (sigOf (recordsN P.dec n st.rd).2.1, st') ∧
-      st'.rd = (recordsN P.dec n st.rd).2.2 ∧ st'.outs = st.outs ++ (recordsN P.dec n st.rd).1 ∧
-      st'.tables = st.tables ∧ st'.hdr = st.hdr ∧ st'.env 1 = st.env 1
+      st'.rd = (recordsN P.dec n st.rd).2.2 ∧ st'.outs = st.outs ++ (recordsN P.dec n st.rd).1.map .ev ∧
+      st'.tables = st.tables ∧ st'.tmTables = st.tmTables ∧ st'.md = st.md ∧ st'.env 1 = st.env 1
   | 0, st => ⟨st, by simp [forLoop, recordsN, sigOf]⟩
   | n + 1, st => by
     have hk : evalI st.env (.const .keventSize) = .ok Gen.Consts.keventSize := rfl
@@ -265,9 +276,9 @@ theorem records_n {ε : Type} (P : Params ε) : ∀ (n : Nat) (st : St ε),
         simp only [recordsN, hd]
       rw [hrec]
       refine ⟨{ st with rd := (st.rd.read Gen.Consts.keventSize).2,
-                        env := st.env.set 2 (.bytes (st.rd.read Gen.Consts.keventSize).1) }, ?_, rfl, ?_, rfl, rfl, ?_⟩
+                        env := st.env.set 2 (.bytes (st.rd.read Gen.Consts.keventSize).1) }, ?_, rfl, ?_, rfl, rfl, rfl, ?_⟩
       · simp only [forLoop, recBody, exec, hk, evalB, Env.set, if_true, hd, sigOf]
-      · simp only [List.append_nil]
+      · simp only [List.map_nil, List.append_nil]
       · simp [Env.set]
     | ok ev =>
       have hrec : recordsN P.dec (n + 1) st.rd =
@@ -278,43 +289,43 @@ theorem records_n {ε : Type} (P : Params ε) : ∀ (n : Nat) (st : St ε),
       rw [hrec]
       let st2 : St ε :=
         { st with rd := (st.rd.read Gen.Consts.keventSize).2,
-                  env := st.env.set 2 (.bytes (st.rd.read Gen.Consts.keventSize).1), outs := st.outs ++ [ev] }
+                  env := st.env.set 2 (.bytes (st.rd.read Gen.Consts.keventSize).1), outs := st.outs ++ [.ev ev] }
       have hbody : exec P recBody st = (.normal, st2) := by
         simp only [recBody, exec, hk, evalB, Env.set, if_true, hd, st2]
-      obtain ⟨st', hl, h1, h2, h3, h4, h5⟩ := records_n P n st2
-      refine ⟨st', ?_, h1, ?_, h3, h4, ?_⟩
+      obtain ⟨st', hl, h1, h2, h3, h4, h5, h6⟩ := records_n P n st2
+      refine ⟨st', ?_, h1, ?_, h3, h4, h5, ?_⟩
       · rw [forLoop]; simp only [hbody]; exact hl
       · rw [h2]; simp [st2]
-      · rw [h5]; simp [st2, Env.set]
+      · rw [h6]; simp [st2, Env.set]
 
 /-- one iteration of the chunk loop -/
 theorem chunk_body {ε : Type} (P : Params ε) (hseek : P.seek = KdVerif.seekUntil) (st : St ε) :
     match KdVerif.seekUntil Gen.Consts.TRACEV3_EVENTS_TAG st.rd with
     | (.error e, r1) => ∃ st', exec P chunkBody st = (.err e, st') ∧ st'.rd = r1 ∧ st'.outs = st.outs ∧
-        st'.tables = st.tables ∧ st'.hdr = st.hdr
+        st'.tables = st.tables ∧ st'.tmTables = st.tmTables ∧ st'.md = st.md
     | (.ok _, r1) =>
       match int64ul r1 with
       | (.error e, r2) => ∃ st', exec P chunkBody st = (.err e, st') ∧ st'.rd = r2 ∧ st'.outs = st.outs ∧
-          st'.tables = st.tables ∧ st'.hdr = st.hdr
+          st'.tables = st.tables ∧ st'.tmTables = st.tmTables ∧ st'.md = st.md
       | (.ok size, r2) =>
         match (recordsN P.dec (size / Gen.Consts.keventSize) (r2.read 8).2).2.1 with
         | some e => ∃ st', exec P chunkBody st = (.err e, st') ∧
             st'.rd = (recordsN P.dec (size / Gen.Consts.keventSize) (r2.read 8).2).2.2 ∧
-            st'.outs = st.outs ++ (recordsN P.dec (size / Gen.Consts.keventSize) (r2.read 8).2).1 ∧
-            st'.tables = st.tables ∧ st'.hdr = st.hdr
+            st'.outs = st.outs ++ (recordsN P.dec (size / Gen.Consts.keventSize) (r2.read 8).2).1.map .ev ∧
+            st'.tables = st.tables ∧ st'.tmTables = st.tmTables ∧ st'.md = st.md
         | none => ∃ st', exec P chunkBody st =
               ((if ((recordsN P.dec (size / Gen.Consts.keventSize) (r2.read 8).2).2.2.read
                     Gen.Consts.TRACEV3_MORE_EVENTS.length).1 = Gen.Consts.TRACEV3_MORE_EVENTS
                 then Signal.normal else Signal.brk), st') ∧
             st'.rd = ((recordsN P.dec (size / Gen.Consts.keventSize) (r2.read 8).2).2.2.read
                     Gen.Consts.TRACEV3_MORE_EVENTS.length).2 ∧
-            st'.outs = st.outs ++ (recordsN P.dec (size / Gen.Consts.keventSize) (r2.read 8).2).1 ∧
-            st'.tables = st.tables ∧ st'.hdr = st.hdr := by
+            st'.outs = st.outs ++ (recordsN P.dec (size / Gen.Consts.keventSize) (r2.read 8).2).1.map .ev ∧
+            st'.tables = st.tables ∧ st'.tmTables = st.tmTables ∧ st'.md = st.md := by
   cases hs : KdVerif.seekUntil Gen.Consts.TRACEV3_EVENTS_TAG st.rd with
   | mk res1 r1 =>
   cases res1 with
   | error e =>
-    refine ⟨{ st with rd := r1 }, ?_, rfl, rfl, rfl, rfl⟩
+    refine ⟨{ st with rd := r1 }, ?_, rfl, rfl, rfl, rfl, rfl⟩
     simp only [chunkBody, exec, evalB, BConst.val, hseek, hs]
   | ok u =>
     have h1 : exec P (.callSeek (.const .eventsTag)) st = (.normal, { st with rd := r1 }) := by
@@ -324,7 +335,7 @@ theorem chunk_body {ε : Type} (P : Params ε) (hseek : P.seek = KdVerif.seekUnt
     | mk res2 r2 =>
     cases res2 with
     | error e =>
-      refine ⟨{ st with rd := r2 }, ?_, rfl, rfl, rfl, rfl⟩
+      refine ⟨{ st with rd := r2 }, ?_, rfl, rfl, rfl, rfl, rfl⟩
       rw [chunkBody, exec_seq_normal _ _ _ _ _ h1]
       simp only [exec, execPrim, hi]
     | ok size =>
@@ -337,7 +348,7 @@ theorem chunk_body {ε : Type} (P : Params ε) (hseek : P.seek = KdVerif.seekUnt
         simp only [exec, evalI, st3, st2]
       have hn : evalI st3.env (.div (.var 1) (.const .keventSize)) = .ok (size / Gen.Consts.keventSize) := by
         simp [evalI, st3, st2, Env.set, IConst.val, Gen.Consts.keventSize]
-      obtain ⟨st4, hl, r4, o4, t4, d4, e4⟩ := records_n P (size / Gen.Consts.keventSize) st3
+      obtain ⟨st4, hl, r4, o4, t4, m4, d4, e4⟩ := records_n P (size / Gen.Consts.keventSize) st3
       have hrd3 : st3.rd = (r2.read 8).2 := rfl
       rw [hrd3] at hl r4 o4
       have h4 : exec P chunkRecords st3 =
@@ -347,7 +358,7 @@ theorem chunk_body {ε : Type} (P : Params ε) (hseek : P.seek = KdVerif.seekUnt
       cases hq : (recordsN P.dec (size / Gen.Consts.keventSize) (r2.read 8).2).2.1 with
       | some e =>
         dsimp only
-        refine ⟨st4, ?_, r4, by rw [o4], by rw [t4], by rw [d4]⟩
+        refine ⟨st4, ?_, r4, by rw [o4], by rw [t4], by rw [m4], by rw [d4]⟩
         rw [chunkBody, exec_seq_normal _ _ _ _ _ h1, exec_seq_normal _ _ _ _ _ h2, exec_seq_normal _ _ _ _ _ h3]
         rw [hq] at h4
         exact exec_seq_err _ _ _ _ _ _ h4
@@ -358,7 +369,7 @@ theorem chunk_body {ε : Type} (P : Params ε) (hseek : P.seek = KdVerif.seekUnt
           { st4 with rd := (st4.rd.read Gen.Consts.TRACEV3_MORE_EVENTS.length).2,
                      env := st4.env.set 3 (.bytes (st4.rd.read Gen.Consts.TRACEV3_MORE_EVENTS.length).1) }
         refine ⟨st5, ?_, by simp only [st5, r4], by simp only [st5, o4]; rfl, by simp only [st5, t4]; rfl,
-          by simp only [st5, d4]; rfl⟩
+          by simp only [st5, m4]; rfl, by simp only [st5, d4]; rfl⟩
         rw [chunkBody, exec_seq_normal _ _ _ _ _ h1, exec_seq_normal _ _ _ _ _ h2, exec_seq_normal _ _ _ _ _ h3,
           exec_seq_normal _ _ _ _ _ h4]
         have h5 : exec P (.read 3 (.len (.const .moreEvents))) st4 = (.normal, st5) := by
@@ -376,8 +387,8 @@ theorem chunk_loop {ε : Type} (P : Params ε) (hseek : P.seek = KdVerif.seekUnt
     ∀ (g f : Nat) (st : St ε), g ≤ f → (chunkLoop P.dec g st.rd).2.1 ≠ some .hang →
     ∃ st', whileLoop (fun s => evalC s.env .tt) (fun s => exec P chunkBody s) f st =
         (sigOf (chunkLoop P.dec g st.rd).2.1, st') ∧
-      st'.rd = (chunkLoop P.dec g st.rd).2.2 ∧ st'.outs = st.outs ++ (chunkLoop P.dec g st.rd).1 ∧
-      st'.tables = st.tables ∧ st'.hdr = st.hdr
+      st'.rd = (chunkLoop P.dec g st.rd).2.2 ∧ st'.outs = st.outs ++ (chunkLoop P.dec g st.rd).1.map .ev ∧
+      st'.tables = st.tables ∧ st'.tmTables = st.tmTables ∧ st'.md = st.md
   | 0, f, st, _, h => by simp [chunkLoop] at h
   | g + 1, f, st, hgf, h => by
     obtain ⟨f', rfl⟩ : ∃ f', f = f' + 1 := ⟨f - 1, by omega⟩
@@ -389,8 +400,8 @@ theorem chunk_loop {ε : Type} (P : Params ε) (hseek : P.seek = KdVerif.seekUnt
     cases res1 with
     | error e =>
       dsimp only at hb h ⊢
-      obtain ⟨st', he, h1, h2, h3, h4⟩ := hb
-      refine ⟨st', ?_, h1, by rw [h2]; simp, h3, h4⟩
+      obtain ⟨st', he, h1, h2, h3, h4, h5⟩ := hb
+      refine ⟨st', ?_, h1, by rw [h2]; simp, h3, h4, h5⟩
       rw [whileLoop]; simp only [evalC, he, sigOf]
     | ok u =>
       dsimp only at hb h ⊢
@@ -400,8 +411,8 @@ theorem chunk_loop {ε : Type} (P : Params ε) (hseek : P.seek = KdVerif.seekUnt
       cases res2 with
       | error e =>
         dsimp only at hb h ⊢
-        obtain ⟨st', he, h1, h2, h3, h4⟩ := hb
-        refine ⟨st', ?_, h1, by rw [h2]; simp, h3, h4⟩
+        obtain ⟨st', he, h1, h2, h3, h4, h5⟩ := hb
+        refine ⟨st', ?_, h1, by rw [h2]; simp, h3, h4, h5⟩
         rw [whileLoop]; simp only [evalC, he, sigOf]
       | ok size =>
         dsimp only at hb h ⊢
@@ -409,28 +420,28 @@ theorem chunk_loop {ε : Type} (P : Params ε) (hseek : P.seek = KdVerif.seekUnt
         | some e =>
           rw [hq] at hb h
           dsimp only at hb h ⊢
-          obtain ⟨st', he, h1, h2, h3, h4⟩ := hb
-          refine ⟨st', ?_, h1, h2, h3, h4⟩
+          obtain ⟨st', he, h1, h2, h3, h4, h5⟩ := hb
+          refine ⟨st', ?_, h1, h2, h3, h4, h5⟩
           rw [whileLoop]; simp only [evalC, he, sigOf]
         | none =>
           rw [hq] at hb h
           dsimp only at hb h ⊢
-          obtain ⟨st1, he, h1, h2, h3, h4⟩ := hb
+          obtain ⟨st1, he, h1, h2, h3, h4, h5⟩ := hb
           by_cases hm : ((recordsN P.dec (size / Gen.Consts.keventSize) (r2.read 8).2).2.2.read
               Gen.Consts.TRACEV3_MORE_EVENTS.length).1 = Gen.Consts.TRACEV3_MORE_EVENTS
           · rw [if_pos hm] at he h ⊢
             dsimp only at h ⊢
             rw [← h1] at h ⊢
-            obtain ⟨st', hl, k1, k2, k3, k4⟩ := chunk_loop P hseek g f' st1 (by omega) h
-            refine ⟨st', ?_, k1, ?_, by rw [k3, h3], by rw [k4, h4]⟩
+            obtain ⟨st', hl, k1, k2, k3, k4, k5⟩ := chunk_loop P hseek g f' st1 (by omega) h
+            refine ⟨st', ?_, k1, ?_, by rw [k3, h3], by rw [k4, h4], by rw [k5, h5]⟩
             · rw [whileLoop]; simp only [evalC, he]; exact hl
-            · rw [k2, h2, List.append_assoc]
+            · rw [k2, h2, List.append_assoc, List.map_append]
           · rw [if_neg hm] at he ⊢
             dsimp only
-            refine ⟨st1, ?_, h1, h2, h3, h4⟩
+            refine ⟨st1, ?_, h1, h2, h3, h4, h5⟩
             rw [whileLoop]; simp only [evalC, he, sigOf]
 
-/-! ### parse_v3 up to the end of the chunk loop -/
+/-! ### parse_v3: header to chunk loop -/
 
 theorem threadmapV3_steps (r : Reader) :
     threadmapV3 r =
@@ -467,6 +478,309 @@ theorem threadmapV3_steps (r : Reader) :
       | error e => rw [RM.bind_err hc]
       | ok p => rw [RM.bind_ok hc]; rfl
 
+/-! ### parse_v3: the tail (`reader.seek(-8, 1)`, the additional data, the block loop, the log loop) -/
+
+/-- the parts of the state the block loop leaves alone -/
+def SameIO {ε : Type} (a b : St ε) : Prop :=
+  b.rd = a.rd ∧ b.tables = a.tables ∧ b.tmTables = a.tmTables ∧ b.outs = a.outs
+
+theorem exec_tag_ite {ε : Type} (P : Params ε) (c : BConst) (t e : Stmt) (st : St ε) (b : Bytes × Bytes)
+    (h : st.env 7 = some (.block b)) :
+    exec P (.ite (.eq (.blockTag 7) (.const c)) t e) st = if b.1 = c.val then exec P t st else exec P e st := by
+  by_cases hc : b.1 = c.val
+  · simp only [exec, evalC, evalB, h, hc, decide_true, if_true]
+  · simp only [exec, evalC, evalB, h, hc, decide_false, if_false]
+
+theorem evalP_loads {ε : Type} (P : Params ε) (st : St ε) (b : Bytes × Bytes) (h : st.env 7 = some (.block b)) :
+    evalP P.plist st.env (.loads (.blockData 7)) =
+      match P.plist b.2 with | some v => .ok (b.2, v) | none => .error .valueError := by
+  cases hp : P.plist b.2 <;> simp only [evalP, evalB, h, hp]
+
+/-- what `block_body` says about one branch -/
+def BlockStep {ε : Type} (st : St ε) (x : Signal × St ε) : Except PyErr BlockState → Prop
+  | .error e => ∃ st', x = (.err e, st') ∧ st'.md = st.md ∧ SameIO st st'
+  | .ok s' => ∃ st', x = (.normal, st') ∧ st'.md = s'.md ∧
+      st'.env 5 = some (.events s'.logEvents) ∧ st'.env 6 = some (.strings s'.logStrings) ∧ SameIO st st'
+
+section branches
+variable {ε : Type} (P : Params ε) (s : BlockState) (b : Bytes × Bytes) (st : St ε)
+  (h7 : st.env 7 = some (.block b)) (hm : st.md = s.md)
+  (h5 : st.env 5 = some (.events s.logEvents)) (h6 : st.env 6 = some (.strings s.logStrings))
+include h7 hm h5 h6
+
+theorem branch_dyld :
+    BlockStep st
+      (exec P (.seq (.assignP 8 (.loads (.blockData 7)))
+        (.iteAttrEmpty .dyldModules (.attrUpdate .dyldModules (.var 8)) (.binExtend .dyldModules (.var 8)))) st)
+      (match P.plist b.2 with
+        | none => .error .valueError
+        | some v =>
+          if s.md.dyldEmpty then
+            .ok { s with md := { s.md with dyldBase := some v.others, dyldEmpty := v.isEmpty, dyldBin := v.binaries } }
+          else
+            match s.md.dyldBin, v.binaries with
+            | some l, some l2 => .ok { s with md := { s.md with dyldBin := some (l ++ l2) } }
+            | _, _ => .error .keyError) := by
+  have hl := evalP_loads P st b h7
+  cases hp : P.plist b.2 with
+  | none =>
+    refine ⟨st, ?_, rfl, rfl, rfl, rfl, rfl⟩
+    simp only [exec, hl, hp]
+  | some v =>
+    simp only [exec, hl, hp, metaIsEmpty, hm]
+    cases hd : s.md.dyldEmpty with
+    | true =>
+      simp only [evalP, Env.set, if_true, metaStep, metaUpdate, hd]
+      exact ⟨_, rfl, rfl, by simp [Env.set, h5], by simp [Env.set, h6], rfl, rfl, rfl, rfl⟩
+    | false =>
+      simp only [evalP, Env.set, if_true, metaBinExtend, Bool.false_eq_true, if_false]
+      cases h1 : s.md.dyldBin with
+      | none => exact ⟨_, rfl, by simp [hm], rfl, rfl, rfl, rfl⟩
+      | some l =>
+        cases h2 : v.binaries with
+        | none => exact ⟨_, rfl, by simp [hm], rfl, rfl, rfl, rfl⟩
+        | some l2 =>
+          exact ⟨_, rfl, by simp [hd], by simp [Env.set, h5], by simp [Env.set, h6], rfl, rfl, rfl, rfl⟩
+
+theorem branch_codes :
+    BlockStep st (exec P (.strAppendDecoded .traceCodes (.blockData 7)) st)
+      (if validUtf8 b.2 then .ok { s with md := { s.md with traceCodes := s.md.traceCodes ++ b.2 } }
+       else .error .unicodeError) := by
+  simp only [exec, evalB, h7, metaAppendDecoded, hm]
+  cases hv : validUtf8 b.2 with
+  | true => exact ⟨_, rfl, rfl, h5, h6, rfl, rfl, rfl, rfl⟩
+  | false => exact ⟨_, rfl, rfl, rfl, rfl, rfl, rfl⟩
+
+theorem branch_setP (a : Attr) (f : V3Meta → Bytes → V3Meta)
+    (ha : ∀ m q, metaSetP m q a = .ok (f m q.1)) :
+    BlockStep st (exec P (.setAttrP a (.loads (.blockData 7))) st)
+      (match P.plist b.2 with
+        | none => .error .valueError
+        | some _ => .ok { s with md := f s.md b.2 }) := by
+  have hl := evalP_loads P st b h7
+  simp only [exec, hl, ha, hm]
+  cases hp : P.plist b.2 with
+  | none => exact ⟨_, rfl, rfl, rfl, rfl, rfl, rfl⟩
+  | some v => exact ⟨_, rfl, rfl, h5, h6, rfl, rfl, rfl, rfl⟩
+
+theorem branch_kexts :
+    BlockStep st (exec P (.binExtend .kernelExtensions (.loads (.blockData 7))) st)
+      (match P.plist b.2 with
+        | none => .error .valueError
+        | some v =>
+          match v.binaries with
+          | none => .error .keyError
+          | some l => .ok { s with md := { s.md with kexts := s.md.kexts ++ l } }) := by
+  have hl := evalP_loads P st b h7
+  simp only [exec, hl, metaBinExtend, hm]
+  cases hp : P.plist b.2 with
+  | none => exact ⟨_, rfl, rfl, rfl, rfl, rfl, rfl⟩
+  | some v =>
+    dsimp only
+    cases h2 : v.binaries with
+    | none => exact ⟨_, rfl, rfl, rfl, rfl, rfl, rfl⟩
+    | some l2 => exact ⟨_, rfl, rfl, h5, h6, rfl, rfl, rfl, rfl⟩
+
+theorem branch_events :
+    BlockStep st (exec P (.eventsExtend 5 (.loads (.blockData 7))) st)
+      (match P.plist b.2 with
+        | none => .error .valueError
+        | some v =>
+          match v.events with
+          | none => .error .keyError
+          | some l => .ok { s with logEvents := s.logEvents ++ l }) := by
+  have hl := evalP_loads P st b h7
+  simp only [exec, hl, h5]
+  cases hp : P.plist b.2 with
+  | none => exact ⟨_, rfl, rfl, rfl, rfl, rfl, rfl⟩
+  | some v =>
+    dsimp only
+    cases h2 : v.events with
+    | none => exact ⟨_, rfl, rfl, rfl, rfl, rfl, rfl⟩
+    | some l2 => exact ⟨_, rfl, hm, by simp [Env.set], by simp [Env.set, h6], rfl, rfl, rfl, rfl⟩
+
+omit h6 in
+theorem branch_strings :
+    BlockStep st (exec P (.assignInvIndex 6 (.loads (.blockData 7))) st)
+      (match P.plist b.2 with
+        | none => .error .valueError
+        | some v =>
+          match v.stringIndex with
+          | none => .error .keyError
+          | some items => .ok { s with logStrings := invertIndex items }) := by
+  have hl := evalP_loads P st b h7
+  simp only [exec, hl]
+  cases hp : P.plist b.2 with
+  | none => exact ⟨_, rfl, rfl, rfl, rfl, rfl, rfl⟩
+  | some v =>
+    dsimp only
+    cases h2 : v.stringIndex with
+    | none => exact ⟨_, rfl, rfl, rfl, rfl, rfl, rfl⟩
+    | some items => exact ⟨_, rfl, hm, by simp [Env.set, h5], by simp [Env.set], rfl, rfl, rfl, rfl⟩
+
+omit h7 hm h5 h6 in
+theorem blockStep_ite {c : Prop} [Decidable c] {x y : Signal × St ε} {a a' : Except PyErr BlockState}
+    (h1 : c → BlockStep st x a) (h2 : ¬c → BlockStep st y a') :
+    BlockStep st (if c then x else y) (if c then a else a') := by
+  by_cases h : c
+  · rw [if_pos h, if_pos h]; exact h1 h
+  · rw [if_neg h, if_neg h]; exact h2 h
+
+/-- one block: the `if / elif` chain on `block.tag` is `dispatchBlock` -/
+theorem block_body : BlockStep st (exec P blockBody st) (dispatchBlock P.plist s b) := by
+  unfold dispatchBlock
+  rw [blockBody, exec_tag_ite P _ _ _ st b h7]
+  refine blockStep_ite st (fun _ => branch_dyld P s b st h7 hm h5 h6) (fun _ => ?_)
+  rw [exec_tag_ite P _ _ _ st b h7]
+  refine blockStep_ite st (fun _ => branch_codes P s b st h7 hm h5 h6) (fun _ => ?_)
+  rw [exec_tag_ite P _ _ _ st b h7]
+  refine blockStep_ite st (fun _ => branch_setP P s b st h7 hm h5 h6 .processes
+    (fun m q => { m with processes := some q }) (fun _ _ => rfl)) (fun _ => ?_)
+  rw [exec_tag_ite P _ _ _ st b h7]
+  refine blockStep_ite st (fun _ => branch_kexts P s b st h7 hm h5 h6) (fun _ => ?_)
+  rw [exec_tag_ite P _ _ _ st b h7]
+  refine blockStep_ite st (fun _ => branch_setP P s b st h7 hm h5 h6 .images
+    (fun m q => { m with images := some q }) (fun _ _ => rfl)) (fun _ => ?_)
+  rw [exec_tag_ite P _ _ _ st b h7]
+  refine blockStep_ite st (fun _ => branch_events P s b st h7 hm h5 h6) (fun _ => ?_)
+  rw [exec_tag_ite P _ _ _ st b h7]
+  refine blockStep_ite st (fun _ => branch_strings P s b st h7 hm h5) (fun _ => ?_)
+  exact ⟨st, rfl, hm, h5, h6, rfl, rfl, rfl, rfl⟩
+
+end branches
+
+/-- the block loop is `dispatchBlocks` -/
+theorem blocks_loop {ε : Type} (P : Params ε) : ∀ (bs : List (Bytes × Bytes)) (s : BlockState) (st : St ε),
+    st.md = s.md → st.env 5 = some (.events s.logEvents) → st.env 6 = some (.strings s.logStrings) →
+    ∃ st', forEach (fun a s => exec P blockBody { s with env := s.env.set 7 a }) (bs.map Val.block) st =
+        (sigOf (dispatchBlocks P.plist s bs).2, st') ∧
+      st'.md = (dispatchBlocks P.plist s bs).1.md ∧ SameIO st st' ∧
+      ((dispatchBlocks P.plist s bs).2 = none →
+        st'.env 5 = some (.events (dispatchBlocks P.plist s bs).1.logEvents) ∧
+        st'.env 6 = some (.strings (dispatchBlocks P.plist s bs).1.logStrings))
+  | [], s, st, hm, h5, h6 => ⟨st, rfl, hm, ⟨rfl, rfl, rfl, rfl⟩, fun _ => ⟨h5, h6⟩⟩
+  | b :: bs, s, st, hm, h5, h6 => by
+    have hb := block_body P s b { st with env := st.env.set 7 (.block b) } (by simp [Env.set]) hm
+      (by simp [Env.set, h5]) (by simp [Env.set, h6])
+    rw [dispatchBlocks]
+    cases hd : dispatchBlock P.plist s b with
+    | error e =>
+      rw [hd] at hb
+      obtain ⟨st', he, k1, k2⟩ := hb
+      refine ⟨st', ?_, by rw [k1]; exact hm, k2, fun h => by simp at h⟩
+      simp only [List.map_cons, forEach, he, sigOf]
+    | ok s' =>
+      rw [hd] at hb
+      obtain ⟨st1, he, k1, k5, k6, k2⟩ := hb
+      obtain ⟨st', hl, j1, j2, j3⟩ := blocks_loop P bs s' st1 k1 k5 k6
+      refine ⟨st', ?_, j1, ?_, j3⟩
+      · simp only [List.map_cons, forEach, he]; exact hl
+      · obtain ⟨a1, a2, a3, a4⟩ := k2
+        obtain ⟨b1, b2, b3, b4⟩ := j2
+        exact ⟨by rw [b1, a1], by rw [b2, a2], by rw [b3, a3], by rw [b4, a4]⟩
+
+/-- the log loop is `logLoop` -/
+theorem log_loop {ε : Type} (P : Params ε) (strings : List (Nat × Bytes)) : ∀ (es : List RawLog) (i : Nat) (st : St ε),
+    st.env 6 = some (.strings strings) →
+    ∃ st', forEach (fun a s => exec P logBody { s with env := s.env.set 9 a })
+          ((es.zipIdx i).map fun p => Val.rawLog p.2 p.1) st =
+        (sigOf (logLoop strings i st.tables es).2.1, st') ∧
+      st'.outs = st.outs ++ (logLoop strings i st.tables es).1.map .log ∧
+      st'.tables = (logLoop strings i st.tables es).2.2 ∧
+      st'.rd = st.rd ∧ st'.tmTables = st.tmTables ∧ st'.md = st.md
+  | [], i, st, _ => ⟨st, rfl, by simp [logLoop], rfl, rfl, rfl, rfl⟩
+  | e :: es, i, st, h6 => by
+    rw [logLoop]
+    cases hf : KdVerif.fromRawLog strings i e with
+    | error err =>
+      refine ⟨{ st with env := st.env.set 9 (.rawLog i e) }, ?_, by simp, rfl, rfl, rfl, rfl⟩
+      simp [List.zipIdx_cons, forEach, logBody, exec, Env.set, h6, hf, sigOf]
+    | ok lo =>
+      dsimp only
+      let env10 : Env := (st.env.set 9 (.rawLog i e)).set 10 (.logOut lo)
+      let t' : Tables := if lo.process ≠ [] ∧ lo.tid ≠ 0 then st.tables.add ⟨lo.tid, lo.pid, lo.process⟩ else st.tables
+      let st2 : St ε := { st with env := env10, tables := t', outs := st.outs ++ [.log lo] }
+      have hbody : exec P logBody { st with env := st.env.set 9 (.rawLog i e) } = (.normal, st2) := by
+        by_cases hp : lo.process = []
+        · simp [logBody, exec, Env.set, h6, hf, evalC, hp, st2, env10, t']
+        · by_cases ht : lo.tid = 0
+          · simp [logBody, exec, Env.set, h6, hf, evalC, hp, ht, st2, env10, t']
+          · simp [logBody, exec, Env.set, h6, hf, evalC, hp, ht, st2, env10, t', storeOne, natField, Tables.add]
+      obtain ⟨st', hl, k1, k2, k3, k4, k5⟩ := log_loop P strings es (i + 1) st2 (by simp [st2, env10, Env.set, h6])
+      refine ⟨st', ?_, ?_, k2, by rw [k3], by rw [k4], by rw [k5]⟩
+      · simp only [List.zipIdx_cons, List.map_cons, forEach, hbody]; exact hl
+      · rw [k1]; simp [st2, t']
+
+theorem exec_resets {ε : Type} (P : Params ε) (k : Stmt) (st : St ε) :
+    exec P (v3Resets k) st =
+      exec P k { st with md := st.md.reset, env := (st.env.set 5 (.events [])).set 6 (.strings []) } := by
+  simp only [v3Resets, exec, metaInit, metaStep]
+  rfl
+
+/-- **the tail of `parse_v3`, interpreted, is the model's `tailV3`** — from any state behind the chunk loop (any reader,
+    tables, parser attributes, local variables) that has yielded the records `evs`. -/
+theorem tail_exec {ε : Type} (P : Params ε) (evs : List ε) (st : St ε) (ho : st.outs = evs.map .ev)
+    (ht : st.tmTables = st.tables) :
+    runFrom P v3Tail st = tailV3 P.plist evs st.tables st.md st.rd := by
+  unfold tailV3
+  dsimp only
+  let st1 : St ε := { st with rd := st.rd.seekTo (st.rd.pos - 8) }
+  have e1 : exec P (.seekRel 8) st = (.normal, st1) := rfl
+  cases hg : greedyRange blockElem ((st.rd.seekTo (st.rd.pos - 8)).rest.length / 16 + 2) (st.rd.seekTo (st.rd.pos - 8)) with
+  | mk res r2 =>
+  cases res with
+  | error e =>
+    have hx : exec P v3Tail st = (.err e, { st1 with rd := r2 }) := by
+      rw [v3Tail, exec_seq_normal _ _ _ _ _ e1]
+      apply exec_seq_err
+      simp only [exec, execPrim, st1, hg]
+    simp only [runFrom, hx, errOf, st1, ho, ht]
+  | ok blocks =>
+    dsimp only
+    let st2 : St ε := { st1 with rd := r2, env := st.env.set 4 (.blocks blocks) }
+    have e2 : exec P (.prim .additionalData 4) st1 = (.normal, st2) := by
+      simp only [exec, execPrim, st1, hg, st2]
+    let st3 : St ε :=
+      { st2 with md := st.md.reset, env := ((st.env.set 4 (.blocks blocks)).set 5 (.events [])).set 6 (.strings []) }
+    have hrun : ∀ x, exec P (.seq (.forIn 7 4 blockBody) (.forIn 9 5 logBody)) st3 = x → exec P v3Tail st = x := by
+      intro x hx
+      rw [v3Tail, exec_seq_normal _ _ _ _ _ e1, exec_seq_normal _ _ _ _ _ e2, exec_resets]
+      exact hx
+    obtain ⟨st4, hl, m4, ⟨r4, t4, tm4, o4⟩, env4⟩ := blocks_loop P blocks ⟨st.md.reset, [], []⟩ st3 rfl
+      (by simp [st3, Env.set]) (by simp [st3, Env.set])
+    have e3 : exec P (.forIn 7 4 blockBody) st3 = (sigOf (dispatchBlocks P.plist ⟨st.md.reset, [], []⟩ blocks).2, st4) := by
+      have : (st3.env 4).bind itemsOf = some (blocks.map Val.block) := by simp [st3, Env.set, itemsOf]
+      simp only [exec, this]
+      exact hl
+    unfold tailOfBlocks
+    cases hd : dispatchBlocks P.plist ⟨st.md.reset, [], []⟩ blocks with
+    | mk s oe =>
+    rw [hd] at e3 m4 env4
+    cases oe with
+    | some e =>
+      have hx := hrun _ (exec_seq_err _ _ _ _ _ _ e3)
+      simp only [runFrom, hx, errOf, m4, r4, t4, tm4, o4, st3, st2, st1, ho, ht]
+    | none =>
+      dsimp only
+      obtain ⟨h5, h6⟩ := env4 rfl
+      obtain ⟨st5, hl5, o5, t5, r5, tm5, m5⟩ := log_loop P s.logStrings s.logEvents 0 st4 h6
+      have e4 : exec P (.forIn 9 5 logBody) st4 = (sigOf (logLoop s.logStrings 0 st4.tables s.logEvents).2.1, st5) := by
+        have : (st4.env 5).bind itemsOf = some ((s.logEvents.zipIdx 0).map fun p => Val.rawLog p.2 p.1) := by
+          simp [h5, itemsOf]
+        simp only [exec, this]
+        exact hl5
+      have hx := hrun _ ((exec_seq_normal _ _ _ _ _ e3).trans e4)
+      rw [t4] at hx o5 t5
+      have ht3 : st3.tables = st.tables := rfl
+      rw [ht3] at hx o5 t5
+      cases hq : (logLoop s.logStrings 0 st.tables s.logEvents).2.1 with
+      | none =>
+        rw [hq] at hx
+        simp only [runFrom, hx, sigOf, errOf, o5, t5, r5, tm5, m5, m4, r4, tm4, o4, st3, st2, st1, ho, ht]
+      | some e =>
+        rw [hq] at hx
+        simp only [runFrom, hx, sigOf, errOf, o5, t5, r5, tm5, m5, m4, r4, tm4, o4, st3, st2, st1, ho, ht]
+
 /-- the statements of `parse_v3` behind the header, as one sequence -/
 def v3AfterHeader : Stmt :=
   .seq (.readDrop (.sub (.lit 8) (.const .rawVersionSize)))
@@ -474,33 +788,21 @@ def v3AfterHeader : Stmt :=
       (.seq (.callSeek (.const .threadmapTag))
         (.seq (.prim .threadmapV3 0)
           (.seq (.setThreadMap 0)
-            (.while .tt chunkBody)))))
+            (.seq (.while .tt chunkBody) v3Tail)))))
 
 theorem parseV3_eq : Expected.parseV3 = .seq (.prim .headerV3 0) v3AfterHeader := rfl
 
-/-- `parse_v3` up to the end of its chunk loop, interpreted, followed by the hand-modelled tail
-    (`reader.seek(-8, 1)`, the additional-data blocks, the log records) is the model's `parseV3`. -/
+/-- **the WHOLE `parse_v3`, interpreted, is the model's `parseV3`**: header, realignment read, both scans, thread-map
+    chunk, `set_thread_map`, the chunk loop, `reader.seek(-8, 1)`, the additional-data blocks and their dispatch, the log
+    loop — for every reader state and every prior parser state. -/
 theorem parseV3_via_ir {ε : Type} (plist : Bytes → Option PView) (dec : Bytes → Except PyErr ε)
     (hdec : RejectsShort dec) (hnh : NoHangDec dec) (prior : PState) (r : Reader) (g : Good r) :
-    KdVerif.parseV3 plist dec prior r =
-      (match (runGen (Expected.prog.params dec plist) Expected.parseV3 prior.tables prior.md.header r).err with
-       | some e =>
-         ⟨(runGen (Expected.prog.params dec plist) Expected.parseV3 prior.tables prior.md.header r).events.map .ev,
-          some e,
-          (runGen (Expected.prog.params dec plist) Expected.parseV3 prior.tables prior.md.header r).tables,
-          (runGen (Expected.prog.params dec plist) Expected.parseV3 prior.tables prior.md.header r).tables,
-          { prior.md with header :=
-              (runGen (Expected.prog.params dec plist) Expected.parseV3 prior.tables prior.md.header r).hdr },
-          (runGen (Expected.prog.params dec plist) Expected.parseV3 prior.tables prior.md.header r).rd⟩
-       | none =>
-         tailV3 plist
-          (runGen (Expected.prog.params dec plist) Expected.parseV3 prior.tables prior.md.header r).events
-          (runGen (Expected.prog.params dec plist) Expected.parseV3 prior.tables prior.md.header r).tables
-          { prior.md with header :=
-              (runGen (Expected.prog.params dec plist) Expected.parseV3 prior.tables prior.md.header r).hdr }
-          (runGen (Expected.prog.params dec plist) Expected.parseV3 prior.tables prior.md.header r).rd) := by
+    KdVerif.parseV3 plist dec prior r = viaV3 Expected.prog plist dec prior r := by
   have hP : (Expected.prog.params dec plist).plist = plist := rfl
   have hD : (Expected.prog.params dec plist).dec = dec := rfl
+  have hV : viaV3 Expected.prog plist dec prior r =
+      runFrom (Expected.prog.params dec plist) Expected.parseV3 (St.init prior r) := rfl
+  rw [hV]
   obtain ⟨s1, _⟩ := linA_headerV3 plist r g
   unfold KdVerif.parseV3
   cases hh : headerV3 plist r with
@@ -508,22 +810,20 @@ theorem parseV3_via_ir {ε : Type} (plist : Bytes → Option PView) (dec : Bytes
   rw [hh] at s1
   cases res with
   | error e =>
-    have hx : runGen (Expected.prog.params dec plist) Expected.parseV3 prior.tables prior.md.header r =
-        ⟨[], some e, prior.tables, prior.md.header, r1⟩ := by
-      simp only [runGen, parseV3_eq, exec, execPrim, hP, hh]
-    rw [hx]
+    have hx : exec (Expected.prog.params dec plist) Expected.parseV3 (St.init prior r) =
+        (.err e, { (St.init prior r : St ε) with rd := r1 }) := by
+      simp only [parseV3_eq, exec, execPrim, hP, hh, St.init]
+    simp only [runFrom, hx]
     rfl
   | ok h =>
     dsimp only
-    let st1 : St ε := ⟨Env.empty, r1, prior.tables, some h, []⟩
-    have e1 : exec (Expected.prog.params dec plist) (.prim .headerV3 0) ⟨Env.empty, r, prior.tables, prior.md.header, []⟩ =
-        (.normal, st1) := by
-      simp only [exec, execPrim, hP, hh, st1]
-    have hrun : ∀ (sig : Signal) (st' : St ε),
-        exec (Expected.prog.params dec plist) v3AfterHeader st1 = (sig, st') →
-        exec (Expected.prog.params dec plist) Expected.parseV3 ⟨Env.empty, r, prior.tables, prior.md.header, []⟩ =
-          (sig, st') := by
-      intro sig st' hs
+    let st1 : St ε := ⟨Env.empty, r1, prior.tables, prior.tables, { prior.md with header := some h }, []⟩
+    have e1 : exec (Expected.prog.params dec plist) (.prim .headerV3 0) (St.init prior r) = (.normal, st1) := by
+      simp only [exec, execPrim, hP, hh, st1, St.init]
+    have hrun : ∀ (x : Signal × St ε),
+        exec (Expected.prog.params dec plist) v3AfterHeader st1 = x →
+        exec (Expected.prog.params dec plist) Expected.parseV3 (St.init prior r) = x := by
+      intro x hs
       rw [parseV3_eq, exec_seq_normal _ _ _ _ _ e1, hs]
     obtain ⟨s2, _⟩ := linA_threadmapV3 r1 s1.good
     have hsteps := threadmapV3_steps r1
@@ -537,12 +837,11 @@ theorem parseV3_via_ir {ε : Type} (plist : Bytes → Option PView) (dec : Bytes
     cases resa with
     | error e =>
       dsimp only at hsteps
-      have hx := hrun (.err e) { st1 with rd := ra } (by
+      have hx := hrun (.err e, { st1 with rd := ra }) (by
         rw [v3AfterHeader, exec_seq_normal _ _ _ _ _ e2]
         apply exec_seq_err
         simp only [exec, evalB, BConst.val, params_seek, ha])
-      simp only [runGen, hx, hsteps]
-      rfl
+      simp only [runFrom, hx, hsteps, errOf, st1]
     | ok ua =>
       dsimp only at hsteps
       have e3 : exec (Expected.prog.params dec plist) (.callSeek (.const .stackshotEnd))
@@ -554,12 +853,11 @@ theorem parseV3_via_ir {ε : Type} (plist : Bytes → Option PView) (dec : Bytes
       cases resb with
       | error e =>
         dsimp only at hsteps
-        have hx := hrun (.err e) { st1 with rd := rb } (by
+        have hx := hrun (.err e, { st1 with rd := rb }) (by
           rw [v3AfterHeader, exec_seq_normal _ _ _ _ _ e2, exec_seq_normal _ _ _ _ _ e3]
           apply exec_seq_err
           simp only [exec, evalB, BConst.val, params_seek, hb])
-        simp only [runGen, hx, hsteps]
-        rfl
+        simp only [runFrom, hx, hsteps, errOf, st1]
       | ok ub =>
         dsimp only at hsteps
         have e4 : exec (Expected.prog.params dec plist) (.callSeek (.const .threadmapTag)) { st1 with rd := ra } =
@@ -571,13 +869,12 @@ theorem parseV3_via_ir {ε : Type} (plist : Bytes → Option PView) (dec : Bytes
         cases resc with
         | error e =>
           dsimp only at hsteps
-          have hx := hrun (.err e) { st1 with rd := rc } (by
+          have hx := hrun (.err e, { st1 with rd := rc }) (by
             rw [v3AfterHeader, exec_seq_normal _ _ _ _ _ e2, exec_seq_normal _ _ _ _ _ e3,
               exec_seq_normal _ _ _ _ _ e4]
             apply exec_seq_err
             simp only [exec, execPrim, hc])
-          simp only [runGen, hx, hsteps]
-          rfl
+          simp only [runFrom, hx, hsteps, errOf, st1]
         | ok payload =>
           dsimp only at hsteps
           rw [hsteps] at s2 ⊢
@@ -586,7 +883,9 @@ theorem parseV3_via_ir {ε : Type} (plist : Bytes → Option PView) (dec : Bytes
           have e5 : exec (Expected.prog.params dec plist) (.prim .threadmapV3 0) { st1 with rd := rb } =
               (.normal, st5) := by
             simp only [exec, execPrim, hc, st5, st1]
-          let st6 : St ε := { st5 with tables := KdVerif.setThreadMap prior.tables (greedyEntries payload) }
+          let st6 : St ε :=
+            { st5 with tables := KdVerif.setThreadMap prior.tables (greedyEntries payload),
+                       tmTables := KdVerif.setThreadMap prior.tables (greedyEntries payload) }
           have e6 : exec (Expected.prog.params dec plist) (.setThreadMap 0) st5 = (.normal, st6) := by
             simp only [exec, st5, st6, st1, Env.set, if_true, params_setTm]
           have hnohang : (chunkLoop (Expected.prog.params dec plist).dec (rc.rest.length / 16 + 2) st6.rd).2.1 ≠ some .hang := by
@@ -594,29 +893,39 @@ theorem parseV3_via_ir {ε : Type} (plist : Bytes → Option PView) (dec : Bytes
             simp only [Reader.rest, List.length_drop]
             have := s2.good
             omega
-          obtain ⟨st', hl, k1, k2, k3, k4⟩ := chunk_loop (Expected.prog.params dec plist) (params_seek dec plist)
+          obtain ⟨st', hl, k1, k2, k3, k4, k5⟩ := chunk_loop (Expected.prog.params dec plist) (params_seek dec plist)
             (rc.rest.length / 16 + 2) (loopFuel st6) st6 (by simp only [loopFuel, st6, st5]; omega) hnohang
           simp only [hD] at hl k1 k2
-          have hx := hrun _ st' (by
+          have hw : exec (Expected.prog.params dec plist) (.while .tt chunkBody) st6 =
+              (sigOf (chunkLoop dec (rc.rest.length / 16 + 2) st6.rd).2.1, st') := by
+            rw [exec]; exact hl
+          have hrun' : ∀ (x : Signal × St ε),
+              exec (Expected.prog.params dec plist) (.seq (.while .tt chunkBody) v3Tail) st6 = x →
+              exec (Expected.prog.params dec plist) Expected.parseV3 (St.init prior r) = x := by
+            intro x hs
+            apply hrun
             rw [v3AfterHeader, exec_seq_normal _ _ _ _ _ e2, exec_seq_normal _ _ _ _ _ e3,
               exec_seq_normal _ _ _ _ _ e4, exec_seq_normal _ _ _ _ _ e5, exec_seq_normal _ _ _ _ _ e6]
-            rw [exec]
-            exact hl)
+            exact hs
           have hrd6 : st6.rd = rc := rfl
-          rw [hrd6] at hx k1 k2
+          rw [hrd6] at hw k1 k2
           cases hq : (chunkLoop dec (rc.rest.length / 16 + 2) rc).2.1 with
           | some e =>
-            rw [hq] at hx
-            simp only [runGen, hx, sigOf, k1, k2, k3, k4, st6, st5, st1, List.nil_append]
+            rw [hq] at hw
+            have hx := hrun' _ (exec_seq_err _ _ _ _ _ _ hw)
+            simp only [runFrom, hx, errOf, k1, k2, k3, k4, k5, st6, st5, st1, List.nil_append]
           | none =>
-            rw [hq] at hx
-            simp only [runGen, hx, sigOf, k1, k2, k3, k4, st6, st5, st1, List.nil_append]
+            rw [hq] at hw
+            have hx := hrun' _ (exec_seq_normal _ _ _ _ _ hw)
+            have ht := tail_exec (Expected.prog.params dec plist) (chunkLoop dec (rc.rest.length / 16 + 2) rc).1 st'
+              (by rw [k2]; rfl) (by rw [k3, k4])
+            simp only [runFrom] at ht ⊢
+            rw [hx, ht, hP, k1, k3, k5]
 
 /-! ### the whole parse -/
 
-/-- **`KdBufParser.parse(reader)`, exhausted, is the interpreted source** (dispatch, `parse_v2` entirely,
-    `parse_v3` up to the end of its chunk loop, `seek_until`, `set_thread_map`) followed by the hand-modelled tail of
-    `parse_v3` — for every byte string and every prior parser state. -/
+/-- **`KdBufParser.parse(reader)`, exhausted, is the interpreted source** (dispatch, `parse_v2` and `parse_v3` entirely,
+    `seek_until`, `set_thread_map`) — for every byte string and every prior parser state. -/
 theorem parse_eq_parseVia {ε : Type} (plist : Bytes → Option PView) (dec : Bytes → Except PyErr ε)
     (hdec : RejectsShort dec) (hnh : NoHangDec dec) (prior : PState) (data : Bytes) :
     KdVerif.parse plist dec prior data = parseVia Expected.prog plist dec prior data := by
@@ -636,7 +945,6 @@ theorem parse_eq_parseVia {ε : Type} (plist : Bytes → Option PView) (dec : By
     by_cases h3 : ((Reader.ofBytes data).read Gen.Consts.RAW_VERSION_SIZE).1 = Gen.Consts.RAW_VERSION3_BYTES
     · simp only [h3, if_true]
       rw [parseV3_via_ir plist dec hdec hnh prior _ g1]
-      rfl
     · simp only [h3, if_false]
 
 end KdVerif.PyIRRd
